@@ -1000,6 +1000,32 @@ class _ConstRight(ast.NodeTransformer):
         return n
 
 
+# ------------------------------------------------------------------------------------------------ 2h. negated two-way tests
+class _PositiveIf(ast.NodeTransformer):
+    """if not C: A else: B   ->   if C: B else: A     (also `x is not y`, `x not in y` as the whole test), for a two-way `if` whose
+    else branch is not an `elif` chain: the two spellings are one statement, the rules read the positive one"""
+    def __init__(self, log):
+        self.log = log
+
+    def visit_If(self, n):
+        self.generic_visit(n)
+        if not n.orelse or (len(n.orelse) == 1 and isinstance(n.orelse[0], ast.If)):
+            return n
+        t = n.test
+        pos = None
+        if isinstance(t, ast.UnaryOp) and isinstance(t.op, ast.Not):
+            pos = t.operand
+        elif isinstance(t, ast.Compare) and len(t.ops) == 1 and isinstance(t.ops[0], (ast.IsNot, ast.NotIn)):
+            pos = ast.copy_location(ast.Compare(left=t.left, ops=[ast.Is() if isinstance(t.ops[0], ast.IsNot) else ast.In()],
+                                                comparators=t.comparators), t)
+        if pos is None:
+            return n
+        n.test = pos
+        n.body, n.orelse = n.orelse, n.body
+        self.log.append(("-", "negated two-way if written positively"))
+        return n
+
+
 def normalise(tree, modname, inventory):
     log = []
     inl = _Inliner(tree, modname, inventory, log)
@@ -1007,6 +1033,7 @@ def normalise(tree, modname, inventory):
     tree._helpers = inl.found
     _OperatorCalls(tree, log).visit(tree)
     _ConstRight(log).visit(tree)
+    _PositiveIf(log).visit(tree)
     _Enum(log).visit(tree)
     _Zip(log).visit(tree)
     _Aug(log).visit(tree)
